@@ -59,12 +59,29 @@ def run(ctx):
         kernel_cases = [ctx.replay] if "table" in ctx.replay else []
     else:
         kernel_cases = [c01.gen_case(ctx.rng) for _ in range(60 if ctx.quick() else 600)]
+        # cost tables in a dtype other than float64 (integer costs, single precision): values are small integers so
+        # that every dtype holds them exactly, but their running sum leaves the int16 range
+        for j in range(12 if ctx.quick() else 120):
+            T, K = ctx.rng.randint(12, 40), ctx.rng.randint(2, 4)
+            vec = ctx.rng.random() < 0.5
+            dt = ["int16", "float32", "int32", "int64"][j % 4]
+            # regimes: one cluster is clearly cheapest over a long stretch and switching is dear, so the optimal path
+            # has long runs without a switch; float32 entries carry 10 fractional bits (exact in float32, but their
+            # running sum is not)
+            cuts = sorted(ctx.rng.sample(range(1, T), min(2, T - 1)))
+            regime = [sum(1 for c_ in cuts if i_ >= c_) % K for i_ in range(T)]
+            den = 1024 if dt == "float32" else 1
+            table = [[str(Fraction(ctx.rng.randint(1500 * den, 3000 * den) - (1200 * den if k_ == regime[i_] else 0), den))
+                      for k_ in range(K)] for i_ in range(T)]
+            big = lambda: str(ctx.rng.randint(4000, 20000))
+            kernel_cases.append({"table": table, "beta_kind": "vector" if vec else "scalar",
+                                 "beta": [big() for _ in range(T)] if vec else big(), "dtype": dt})
     kjobs, klines = [], []
     for i, c in enumerate(kernel_cases):
         T, K = len(c["table"]), len(c["table"][0])
         lay = ["C", "F", "strided", "C"][i % 4]
         kjobs.append({"table": {"data": [float(Fraction(x)) for row in c["table"] for x in row], "shape": [T, K],
-                                "layout": lay, "readonly": i % 5 == 0},
+                                "layout": lay, "readonly": i % 5 == 0, "dtype": c.get("dtype")},
                       "beta_kind": c["beta_kind"],
                       "beta": [float(Fraction(x)) for x in c["beta"]] if c["beta_kind"] == "vector" else float(Fraction(c["beta"]))})
         rows = show_list(c["table"], lambda r: show_list(r, lambda x: frac_str(Fraction(x))), ";")
